@@ -192,6 +192,31 @@ def run(f, fixture, rep, cfg, tier):
     rep.check(seq == [("metadata", "self.metadata"), ("write_all", "self.content")], "O7", "Package|write-order", "the payload follows the metadata and nothing else is written",
               "Package::write emits %s" % seq, pw.span)
 
+    # ---- O4b: who may touch a header's index, store and intro: only Header's own methods (which keep the size invariant, O4);
+    # code elsewhere that clears or edits these fields directly leaves the intro describing something else
+    n_out = 0
+    for b in f.body_list:
+        if b.derived or re.search(r"headers::header::(Header|IndexHeader|IndexEntry|IndexData)", b.path) or "headers::header::" in (b.impl_self or ""):
+            continue
+        for bb in b.reachable():
+            for st in b.stmts(bb):
+                if st["k"] != "assign":
+                    continue
+                places = []
+                if st["lhs"]["p"]:
+                    places.append(("assigns", st["lhs"]))
+                if st["rv"]["r"] == "ref" and st["rv"].get("mut"):
+                    places.append(("mutably borrows", st["rv"]["p"]))
+                for what, pl in places:
+                    names = [p.get("n") for p in pl["p"] if isinstance(p, dict) and "n" in p]
+                    if names and names[-1] in ("index_entries", "store", "index_header") or (len(names) >= 2 and names[-2] == "index_header"):
+                        n_out += 1
+                        rep.finding("O4", "outside-write|%s|%s" % (fmt_key(b.path), ".".join(names[-2:])),
+                                    "%s %s %s of a header directly: only Header's own methods keep the intro's counts equal to what is stored (size(), offsets and write() disagree otherwise)" % (b.path, what, ".".join(names)),
+                                    "%s:%s" % (b.file, st.get("line")))
+    if not n_out:
+        rep.ok("O4", "no function outside headers::header writes a header's index_entries / store / index_header")
+
     # ---- O8: the parse side keeps the size invariant too (C01.R5: the store is the whole declared data section) ----------
     rep.rule("O8", "a parsed header's store is the declared data section (C01.R5)")
     rep.include("c01", f, fixture, cfg, tier, "O8", "parsed header store", only_rules={"R5"}, floor=2)
